@@ -216,6 +216,12 @@ class OrthoXMLParser(object):
                     else:
                         ancestral_genome = self.ham_object._get_ancestral_genome_by_mrca_of_hog_children_genomes(hog)
 
+                    # a duplication is attached one level above its copies: the group cannot be younger than that
+                    for child in hog.children:
+                        dupl_node = child.arose_by_duplication
+                        if dupl_node != False and dupl_node.MRCA.taxon in ancestral_genome.taxon.get_ancestors():
+                            ancestral_genome = dupl_node.MRCA
+
                     hog.set_genome(ancestral_genome)
                     ancestral_genome.taxon.genome.add_gene(hog)
 
